@@ -4,7 +4,7 @@ NFA-DISPATCH (builders)."""
 from . import core
 from .core import Callee, walk, show, mk_phi
 from .view import FnView, pnorm, mk_payload, OPTION, RESULT
-from .pat import m, ANY, V, K, Par, C, F, E, P, B, Phi, OneOf, members
+from .pat import m, ANY, V, K, Par, C, F, E, P, B, Phi, OneOf, members, strip_iter
 from .search import opt_arms, bool_arms, switches_on, is_const, self_param
 
 VEC_PUSH = "alloc::vec::Vec::push"
@@ -101,7 +101,7 @@ def rule_outputs_pass(ctx, R, NR):
     NS = NR.NS
     # the queue pull: Iterator::next over the parameter q
     pulls = [(vw, bi, vw.op(tj["args"][0])) for vw, bi, c, tj in fv.calls(lambda c: core.callee_base(c.key) == "core::iter::Iterator::next")]
-    qpull = [(vw, bi, r) for vw, bi, r in pulls if r[0] == "param" and r[1] == 2]
+    qpull = [(vw, bi, r) for vw, bi, r in pulls if strip_iter(r)[0] == "param" and strip_iter(r)[1] == 2]
     ctx.check(len(qpull) == 1 and len(pulls) == 1, "NFA-OUT", b, "queue-order", b.span,
               "the outputs pass must visit exactly the states of the queue parameter, in queue (BFS) order; pulls: %s"
               % [show(r) for _, _, r in pulls])
@@ -109,7 +109,7 @@ def rule_outputs_pass(ctx, R, NR):
         return
     _, pbi, _ = qpull[0]
     psite = (b.path, pbi)
-    cur = P(C("core::iter::Iterator::next", Par(2), site=psite))   # the dequeued state id
+    cur = P(C("core::iter::Iterator::next", ANY, site=psite))   # the dequeued state id
     S = nfa_state(cur)
     Sfail = nfa_state(F(nfa_state(cur), "fail", NS))
     # writes to NS.output_pos in this function
